@@ -414,10 +414,10 @@ func (g *egen) flag(builtin bool) uint32 {
 
 func pick[T any](r *rand.Rand, l []T) T { return l[r.Intn(len(l))] }
 
-var nodePool = []string{"foo", "bar", "baz", "quux", "n1", "end1"}
-var symPool = []string{"aa", "bb", "cc", "dd"}
-var selPool = []string{"0", "1", "2", "3", "9", "00", "a", "x1", "11", "22"}
-var langCodes = []string{"nor", "no", "swa", "eng", "xx", "zzzz", "", "fra"}
+var eNodePool = []string{"foo", "bar", "baz", "quux", "n1", "end1"}
+var eSymPool = []string{"aa", "bb", "cc", "dd"}
+var eSelPool = []string{"0", "1", "2", "3", "9", "00", "a", "x1", "11", "22"}
+var eLangCodes = []string{"nor", "no", "swa", "eng", "xx", "zzzz", "", "fra"}
 
 func (g *egen) sel() string {
 	if g.r.Intn(8) == 0 {
@@ -497,7 +497,7 @@ func (g *egen) script(limit int, langy bool) []eFres {
 			f.Status = g.r.Intn(3)
 		}
 		if langy {
-			f.Content = pick(g.r, langCodes)
+			f.Content = pick(g.r, eLangCodes)
 			f.Set = append(f.Set, state.FLAG_LANG)
 			f.Echo = false
 		}
@@ -533,12 +533,12 @@ type genOut struct {
 func genApp(r *rand.Rand) genOut {
 	g := &egen{r: r, flagCount: pick(r, []int{4, 4, 4, 4, 1, 0, 9})}
 	nn := 2 + r.Intn(4)
-	g.nodes = append([]string{"root"}, nodePool[:nn]...)
-	g.syms = symPool[:2+r.Intn(3)]
+	g.nodes = append([]string{"root"}, eNodePool[:nn]...)
+	g.syms = eSymPool[:2+r.Intn(3)]
 	ns := 3 + r.Intn(4)
-	perm := r.Perm(len(selPool))
+	perm := r.Perm(len(eSelPool))
 	for i := 0; i < ns; i++ {
-		g.sels = append(g.sels, selPool[perm[i]])
+		g.sels = append(g.sels, eSelPool[perm[i]])
 	}
 	a := &eApp{Fn: map[string][]eFres{}}
 	limits := map[string]int{}
@@ -758,7 +758,7 @@ func genHistory(r *rand.Rand, sels []string, n int) [][]byte {
 		case k < 70:
 			in = pick(r, []string{"11", "22", "11", "11"})
 		case k < 78:
-			in = pick(r, selPool)
+			in = pick(r, eSelPool)
 		case k < 83:
 			in = ""
 		case k < 90:
